@@ -17,6 +17,14 @@ use parser::{ExprParser, StatementsParser};
 pub use program::verif::*;
 pub use y86_disasm::disassemble_to_string;
 
+/// the cargo features this build was compiled with, in the order strict-wire-widths-binary,
+/// strict-boolean-ops, require-mux-default, disallow-multiple-mux-default, disallow-unreachable-options
+pub fn strictness_features() -> [bool; 5] {
+    [cfg!(feature="strict-wire-widths-binary"), cfg!(feature="strict-boolean-ops"),
+     cfg!(feature="require-mux-default"), cfg!(feature="disallow-multiple-mux-default"),
+     cfg!(feature="disallow-unreachable-options")]
+}
+
 /// the built-in preamble that `read_y86_hcl` puts in front of every user file
 pub fn y86_preamble() -> &'static str { ::program::Y86_PREAMBLE }
 
